@@ -312,6 +312,37 @@ def rule_legal_src(ctx):
                             ctx.functions.add(cb.key)
                 elif any("get_all_moves" in c for c in calls):
                     ctx.bad("%s:fallback-from-pseudo-legal-moves" % C.ITER_DEEP, "the fallback move is taken from the pseudo-legal list", cb.where(0))
+    # ... and from nowhere else: the text printed depends on info.best_move, on the fall-back list, and on no other state
+    # (a table entry, a remembered move of an earlier search, ...) whose legality in this position nothing establishes
+    allowed_calls = ("board::Board::get_legal_moves", "<board::ply::Ply as std::fmt::Display>::fmt", "board::ply::Ply::to_notation", "search::Search::log", "search::Search::stop")
+    foreign = []
+    for eb in emits:
+        t = it.blocks[eb].term
+        e = ("call", "", tuple(sym.operand(a) for a in t["args"]))
+        todo = [(it, x) for x in C.depends_on(it, sym, e)]
+        seen_cl = set()
+        while todo:
+            body_, x0 = todo.pop()
+            for x in walk(x0):
+                if not isinstance(x, tuple) or not x:
+                    continue
+                if x[0] == "static":
+                    foreign.append("static %s" % x[1])
+                elif x[0] == "call" and isinstance(x[1], str) and strip_generics(x[1]) in ix.bodies and strip_generics(x[1]) not in allowed_calls and ix.bodies[strip_generics(x[1])].kind != "closure":
+                    foreign.append("%s()" % C.short(x[1]))
+                elif x[0] == "field" and mir.strip_refs(mir.strip_copies(x[1]))[0] == "deref" and mir.strip_refs(mir.strip_copies(x[1]))[1] == ("arg", "self") and body_ is it:
+                    if tuple(x[2:4]) not in (("info", "best_move"),) and x[2] not in ("original_board",):
+                        foreign.append("self.%s" % ".".join(x[2:]))
+                elif x[0] == "closure" and x[1] in ix.bodies and x[1] not in seen_cl:
+                    seen_cl.add(x[1])
+                    cb = ix.bodies[x[1]]
+                    csym = mir.Sym(cb, ix)
+                    for _b, t2 in cb.calls():
+                        todo.append((cb, ("call", t2.get("callee") or "?", tuple(csym.operand(a) for a in t2["args"]))))
+                    todo.append((cb, csym.local(0)))
+    foreign = sorted(set(foreign))
+    ctx.check(not foreign, "%s:printed-move-has-no-other-source" % C.ITER_DEEP, "the bestmove text depends on info.best_move and the root's legal-move list only", it.where(emits[0] if emits else 0),
+              bad_what="the bestmove text also depends on %s: a move taken from there is not known to be legal in the searched position" % ", ".join(foreign[:4]))
     # writers of info.best_move
     n_w = 0
     for b in ix.fn_bodies():
@@ -490,6 +521,9 @@ RULES += engine.movegen_premises()
 # C07), and the counters make_move steps in the tree must be wide enough for any game (C15.counter-widths)
 RULES += engine.premise_rules("c07", ["letters", "side-ep", "castle-letters", "fields"])
 RULES += engine.premise_rules("c15", ["counter-widths"])
+# "legal in the position the GUI set up": the board the search is started on is the one the last `position` command
+# describes, whatever came before it in the session (C08)
+RULES += engine.premise_rules("c08", ["fresh", "commit", "apply", "tokens", "dispatch"])
 # get_pv runs on the search thread before the bestmove line and asserts that it restored its scratch board: the line is
 # printed only if the walk takes back exactly the moves it played (C14.pv-legal)
 RULES += engine.premise_rules("c14", ["pv-legal", "move-text"])   # and the move is printed the way `position .. moves` reads it back
